@@ -143,7 +143,12 @@ def unsplit_result(
     scheme: str, netloc: str, url: str, query: str, fragment: str
 ) -> str:
     """Unsplit a URL without any normalization."""
-    if netloc or (scheme and scheme in USES_AUTHORITY) or url[:2] == "//":
+    if (
+        netloc
+        # a rootless path cannot follow an empty authority without turning rooted
+        or (scheme and scheme in USES_AUTHORITY and url[:1] in ("", "/"))
+        or url[:2] == "//"
+    ):
         if url and url[:1] != "/":
             url = f"{scheme}://{netloc}/{url}" if scheme else f"{scheme}:{url}"
         else:
